@@ -69,8 +69,6 @@ def check_tseytin(case):
     gate_vars = sorted({abs(l) for cl in clauses for l in cl if abs(l) > n})
     if any(l == 0 for cl in clauses for l in cl):
         raise Violation('bad_literal', 'literal 0 in CNF')
-    if len(gate_vars) > len(cone):
-        raise Violation('too_many_variables', f'{len(gate_vars)} gate variables for a cone of {len(cone)} gates')
     W = 1 << n
     want = (1 << W) - 1
     for o in sel_labels:
@@ -100,8 +98,9 @@ def check_tseytin(case):
     # every encoded gate gets its evaluated value (allocation-order agnostic)
     got = collections.Counter(tuple(col) for col in columns.values())
     exp_cols = collections.Counter(tuple(bool((t[l] >> j) & 1) for j in sat_rows) for l in cone)
-    if sat_rows and got != exp_cols:
-        raise Violation('gate_values', f'value columns of CNF gate variables {dict(got)} != evaluated cone gates {dict(exp_cols)}')
+    # (auxiliary variables would be tolerated: every cone gate must have a variable carrying its value column)
+    if sat_rows and (exp_cols - got):
+        raise Violation('gate_values', f'value columns of CNF gate variables {dict(got)} do not cover the evaluated cone gates {dict(exp_cols)}')
     # Cnf.from_circuit == tseytin_transformation(c)
     full = [list(x) for x in tseytin_transformation(c).get_raw()]
     if [list(x) for x in Cnf.from_circuit(c).get_raw()] != full:
